@@ -118,6 +118,15 @@ def step (st : State) (w : List String) : State × String :=
     | some l => (st, "reply=" ++ String.join (l.map boolStr))
     | none => (st, "bad-op")
   | "dchain" :: "rlserve" :: _ => (st, "unmodelled")
+  | ["ident", "raw", a, _port] =>
+    -- the batched reader hands the chain the datagram's own source: a 16-byte
+    -- address counts as IPv4 only in its genuine ::ffff:a.b.c.d form
+    match parseAddr a with
+    | some (f, v) =>
+      let (f', v') := if f == Fam.v6 && v / 2 ^ 32 == 0xffff then (Fam.mapped, v % 2 ^ 32) else (f, v)
+      (st, s!"next={boolStr (aclNext st.acl false f' v')}")
+    | none => (st, "bad-op")
+  | "sub" :: "cachehit" :: _ => (st, "unmodelled")
   | ["views", "slab", _proto, as, qt] =>
     -- one chain and one transport reused across peers: every query is answered
     -- from the view of its own source
